@@ -16,11 +16,16 @@ frames are covered because the theorem holds for *every* frame and fuel, and eve
 namespace Rangers.Props.C11F
 open Rangers.Evm11 Rangers.Props.C11 Rangers.Props.C11B Rangers.Props.C11C Rangers.Props.C11D Rangers.Props.C11E
 
-/-- the per-iteration assertion -/
-def frameOk (prev : Nat) (fr : Frame) : Prop :=
-  fr.gas ≤ prev ∧ fr.gas < 2 ^ 64 ∧ fr.stack.length ≤ 1024 ∧ MemInv fr.mem
+/-- the per-iteration assertion; `gas0` is the gas the frame started with, `mag` the Proposal026
+    magnification: the last clause says the gas spent so far covers the full quadratic fee of the
+    memory the frame holds now -/
+def frameOk (mag gas0 prev : Nat) (fr : Frame) : Prop :=
+  fr.gas ≤ prev ∧ fr.gas < 2 ^ 64 ∧ fr.stack.length ≤ 1024 ∧ MemInv fr.mem ∧
+  fr.gas + cmem (fr.mem.size / 32) * mag ≤ gas0
 
-instance (prev : Nat) (fr : Frame) : Decidable (frameOk prev fr) := by
+def magOf (cx : Ctx) : Nat := if cx.gc.p26 then 30 else 1
+
+instance (mag gas0 prev : Nat) (fr : Frame) : Decidable (frameOk mag gas0 prev fr) := by
   unfold frameOk
   have : Decidable (MemInv fr.mem) :=
     if h : fr.mem.size % 32 = 0 ∧ fr.mem.size ≤ 0x1FFFFFFFE0 ∧ fr.mem.lastGasCost = cmem (fr.mem.size / 32) then
@@ -37,23 +42,23 @@ def finishStepG (info : OpInfo) (cont : Frame → Global → Option RunRes) (fr2
 
 /-- `runLoop` with the assertion `frameOk prev fr` at the head of every iteration
     (`prev` = the gas this frame had one iteration earlier) -/
-def runLoopG (cx : Ctx) : (fuel : Nat) → (depth : Nat) → (ro : Bool) → Frame → Global → (prev : Nat) → Option RunRes
-  | 0, _, _, fr, g, prev => if frameOk prev fr then some ⟨#[], some .outOfFuel, fr.gas, g⟩ else none
+def runLoopG (cx : Ctx) (gas0 : Nat) : (fuel : Nat) → (depth : Nat) → (ro : Bool) → Frame → Global → (prev : Nat) → Option RunRes
+  | 0, _, _, fr, g, prev => if frameOk (magOf cx) gas0 prev fr then some ⟨#[], some .outOfFuel, fr.gas, g⟩ else none
   | fuel + 1, depth, ro, fr, g, prev =>
-    if ¬ frameOk prev fr then none else
+    if ¬ frameOk (magOf cx) gas0 prev fr then none else
     match stepPre cx ro fr (g.observe depth fr.stack.length) with
     | .fault e g' => some ⟨#[], some e, fr.gas, g'⟩
     | .ok info fr1 args g1 cgt =>
       match execOp cx ro info.exec fr1 args g1 cgt with
       | .fault e g2 => some ⟨#[], some e, fr1.gas, g2⟩
       | .upd u =>
-        finishStepG info (fun fr3 g3 => runLoopG cx fuel depth ro fr3 g3 fr.gas)
+        finishStepG info (fun fr3 g3 => runLoopG cx gas0 fuel depth ro fr3 g3 fr.gas)
           { fr1 with stack := u.push ++ fr1.stack, mem := u.mem, pc := u.pc, authorized := u.authorized } u.res u.g
       | .invoke req deduct g2 =>
         let fr2 := { fr1 with gas := fr1.gas - deduct }
         let cr := doInvoke cx (runLoop cx fuel) depth ro fr2 req g2
         if isAbortErr cr.err then some ⟨#[], cr.err, fr2.gas, cr.g⟩
-        else finishStepG info (fun fr3 g3 => runLoopG cx fuel depth ro fr3 g3 fr.gas)
+        else finishStepG info (fun fr3 g3 => runLoopG cx gas0 fuel depth ro fr3 g3 fr.gas)
           (resume fr2 req cr).1 (resume fr2 req cr).2 cr.g
 
 theorem finishStepG_eq (info : OpInfo) (contG : Frame → Global → Option RunRes) (cont : Frame → Global → RunRes)
@@ -69,20 +74,80 @@ theorem finishStepG_eq (info : OpInfo) (contG : Frame → Global → Option RunR
     · apply h <;> (split <;> rfl)
 
 /-- every frame `evm.Call / CallCode / DelegateCall / StaticCall / create` starts satisfies the assertion -/
-theorem frameOk_fresh (code : BA) (gas self caller : Nat) (value : Word) (input : BA) (h : gas < 2 ^ 64) :
-    frameOk gas (mkFrame code gas self caller value input) := by
-  refine ⟨Nat.le_refl _, h, by simp [mkFrame], ?_⟩
-  exact memInv_empty
+theorem frameOk_fresh (mag : Nat) (code : BA) (gas self caller : Nat) (value : Word) (input : BA) (h : gas < 2 ^ 64) :
+    frameOk mag gas gas (mkFrame code gas self caller value input) := by
+  refine ⟨Nat.le_refl _, h, by simp [mkFrame], memInv_empty, ?_⟩
+  simp [mkFrame, Mem.empty, Mem.size, cmem]
+
+theorem resume_mem_size (fr : Frame) (r : Req) (cr : CallRes) : (resume fr r cr).1.mem.size = fr.mem.size := by
+  cases r with
+  | call k a v i gas ro rs io =>
+    simp only [resume]
+    split
+    · exact memWrite_size _ _ _ _
+    · rfl
+  | create s v i gas => simp [resume]
+  | authcall au a v i gas ro rs =>
+    simp only [resume]
+    split
+    · exact memWrite_size _ _ _ _
+    · rfl
+
+/-- what a nested call / create is given never exceeds what was deducted plus what its gas function
+    charged as forwarded gas (and the stipend of a value-bearing CALL / CALLCODE) -/
+theorem invoke_fwd (cx : Ctx) (fr : Frame) (g : Global) (info : OpInfo) (fr1 : Frame) (args : List Word)
+    (g1 : Global) (cgt : Nat) (req : Req) (d : Nat)
+    (hp : PreOk cx fr g info fr1 args g1 cgt) (ha : entryAll info = true)
+    (hi : InvokeOk info.exec fr1 args cgt req d) :
+    reqGas req ≤ d + (if usesMem info.dyn then cgt + stipendOf info.dyn fr.stack else 0) := by
+  unfold entryAll at ha
+  simp only [Bool.and_eq_true, decide_eq_true_eq] at ha
+  obtain ⟨⟨⟨⟨⟨⟨⟨⟨⟨_, _⟩, _⟩, _⟩, _⟩, _⟩, hcd⟩, _⟩, _⟩, _⟩ := ha
+  rcases hi with ⟨_, _, hrg, _⟩ | ⟨k, he, hd, _, hrg⟩ | ⟨he, hd, hrg⟩
+  · omega
+  · have hdynk : (k = .call → info.dyn = .call) ∧ (k = .callcode → info.dyn = .callcode) ∧
+        (k = .delegatecall → info.dyn = .delegatecall) ∧ (k = .staticcall → info.dyn = .staticcall) := by
+      unfold entryCallDyn at hcd
+      rw [he] at hcd
+      cases k <;> simp at hcd <;> simp [hcd]
+    have hargs2 : args.getD 2 0 = back fr.stack 2 := by
+      rw [hp.argsEq, he]; unfold back; exact getD_take_lt _ _ _ (by cases k <;> simp [Exec.pops])
+    have hum : usesMem info.dyn = true := by
+      cases k
+      · rw [hdynk.1 rfl]; rfl
+      · rw [hdynk.2.1 rfl]; rfl
+      · rw [hdynk.2.2.1 rfl]; rfl
+      · rw [hdynk.2.2.2 rfl]; rfl
+    rw [hum, hd]
+    simp only [if_true]
+    rcases hrg with hrg | ⟨hrg, hk, hv⟩
+    · omega
+    · have := wadd_le cgt 2300
+      rw [hargs2] at hv
+      have hs : stipendOf info.dyn fr.stack = 2300 := by
+        rcases hk with hk | hk
+        · rw [hdynk.1 hk]; simp [stipendOf, hv]
+        · rw [hdynk.2.1 hk]; simp [stipendOf, hv]
+      omega
+  · have hdn : info.dyn = .authcall := by
+      unfold entryCallDyn at hcd
+      rw [he] at hcd
+      simpa using hcd
+    rw [hdn, hd, hrg]
+    simp [usesMem]
 
 /-- **trace_invariants.** From any frame satisfying the assertion, the loop with an assertion
     at every iteration head never fails an assertion and computes exactly what `runLoop`
     computes: at *every* iteration of *every* run — gas has not increased since the previous
     iteration of the frame (also across a nested call or create), the stack has at most 1024
-    words, memory is word aligned, below the guard and paid for in full. -/
+    words, memory is word aligned, below the guard and paid for in full, and **cumulatively**:
+    the gas the frame has spent since it started (`gas0 − gas`, which includes what nested frames
+    kept) is at least `Cmem(current memory words) × magnification` — every byte of memory the
+    frame ever grew has been charged. -/
 theorem trace_invariants (cx : Ctx) (ht : TableOk cx.table) :
-    ∀ (fuel depth : Nat) (ro : Bool) (fr : Frame) (g : Global) (prev : Nat), frameOk prev fr →
-      runLoopG cx fuel depth ro fr g prev = some (runLoop cx fuel depth ro fr g) := by
-  intro fuel
+    ∀ (gas0 fuel depth : Nat) (ro : Bool) (fr : Frame) (g : Global) (prev : Nat), frameOk (magOf cx) gas0 prev fr →
+      runLoopG cx gas0 fuel depth ro fr g prev = some (runLoop cx fuel depth ro fr g) := by
+  intro gas0 fuel
   induction fuel with
   | zero =>
     intro depth ro fr g prev hok
@@ -90,9 +155,13 @@ theorem trace_invariants (cx : Ctx) (ht : TableOk cx.table) :
     rw [if_pos hok]
   | succ fuel ih =>
     intro depth ro fr g prev hok
-    obtain ⟨_, hlt, hst, hmi⟩ := hok
+    obtain ⟨_, hlt, hst, hmi, hpaid⟩ := hok
     unfold runLoopG runLoop
-    rw [if_neg (by simp only [Decidable.not_not]; exact ⟨by assumption, hlt, hst, hmi⟩)]
+    rw [if_neg (by simp only [Decidable.not_not]; exact ⟨by assumption, hlt, hst, hmi, hpaid⟩)]
+    have hmono : ∀ a b : Nat, a ≤ b → cmem a ≤ cmem b := by
+      intro a b hab
+      have := sq_le hab
+      unfold cmem; omega
     cases hpre : stepPre cx ro fr (g.observe depth fr.stack.length) with
     | fault e g' => rfl
     | ok info fr1 args g1 cgt =>
@@ -118,9 +187,17 @@ theorem trace_invariants (cx : Ctx) (ht : TableOk cx.table) :
         apply finishStepG_eq
         intro fr3 g3 hg3 hs3 hm3
         apply ih
-        refine ⟨by rw [hg3]; exact hf1, by rw [hg3]; simp only; omega, ?_, ?_⟩
+        have hu := execOp_upd _ _ _ _ _ _ _ _ hargs hex
+        refine ⟨by rw [hg3]; exact hf1, by rw [hg3]; simp only; omega, ?_, ?_, ?_⟩
         · rw [hs3]; exact hsb.1 u hex
         · rw [hm3]; exact memory_inv_execute cx ro info.exec fr1 args g1 cgt u hargs hmp.1 hex
+        · rw [hg3, hm3]
+          simp only
+          rw [hu.2.1]
+          have hm1 := hmono _ _ (Nat.div_le_div_right (c := 32) hmp.2.1)
+          have h3 := hmp.2.2
+          unfold magOf at hpaid ⊢
+          rcases Bool.eq_false_or_eq_true cx.gc.p26 with h26 | h26 <;> simp only [h26, Bool.false_eq_true, if_false, if_true] at * <;> omega
       | invoke req deduct g2 =>
         have hi := execOp_invoke _ _ _ _ _ _ _ _ _ _ hex
         obtain ⟨hd, hchild, hback, hpush, hpops⟩ := invoke_gas cx fr _ info fr1 args g1 cgt req deduct hp ha hlt hi
@@ -140,21 +217,30 @@ theorem trace_invariants (cx : Ctx) (ht : TableOk cx.table) :
           apply finishStepG_eq
           intro fr3 g3 hg3 hs3 hm3
           apply ih
-          refine ⟨by rw [hg3, hrs.1]; omega, by rw [hg3, hrs.1]; exact hwlt, ?_, ?_⟩
+          have hfwd := invoke_fwd cx fr _ info fr1 args g1 cgt req deduct hp ha hi
+          have hrm := resume_mem_size { fr1 with gas := fr1.gas - deduct } req
+            (doInvoke cx (runLoop cx fuel) depth ro { fr1 with gas := fr1.gas - deduct } req g2)
+          refine ⟨by rw [hg3, hrs.1]; omega, by rw [hg3, hrs.1]; exact hwlt, ?_, ?_, ?_⟩
           · rw [hs3]; exact hsb.2 req deduct g2 _ hex
           · rw [hm3]
             exact memory_inv_resume { fr1 with gas := fr1.gas - deduct } req _ hmp.1
+          · rw [hg3, hm3, hrs.1, hrm]
+            simp only
+            have hm1 := hmono _ _ (Nat.div_le_div_right (c := 32) hmp.2.1)
+            have h3 := hmp.2.2
+            unfold magOf at hpaid ⊢
+            rcases Bool.eq_false_or_eq_true cx.gc.p26 with h26 | h26 <;> simp only [h26, Bool.false_eq_true, if_false, if_true] at * <;> omega
 
 /-- the same for the 8 generated tables, started from a fresh frame -/
 theorem trace_invariants_fresh (cx : Ctx) (hcx : GenCtx cx) (fuel depth : Nat) (ro : Bool)
     (code : BA) (gas self caller : Nat) (value : Word) (input : BA) (g : Global) (h : gas < 2 ^ 64) :
-    runLoopG cx fuel depth ro (mkFrame code gas self caller value input) g gas
+    runLoopG cx gas fuel depth ro (mkFrame code gas self caller value input) g gas
       = some (runLoop cx fuel depth ro (mkFrame code gas self caller value input) g) :=
-  trace_invariants cx (genCtx_tableOk hcx) fuel depth ro _ g gas (frameOk_fresh code gas self caller value input h)
+  trace_invariants cx (genCtx_tableOk hcx) gas fuel depth ro _ g gas (frameOk_fresh _ code gas self caller value input h)
 
 /-- the assertion is not vacuous: a frame whose gas exceeds `prev` is rejected at once -/
 example (cx : Ctx) (depth : Nat) (ro : Bool) (g : Global) :
-    runLoopG cx 5 depth ro (mkFrame #[0x5b] 100 0 0 0 #[]) g 99 = none := by
+    runLoopG cx 100 5 depth ro (mkFrame #[0x5b] 100 0 0 0 #[]) g 99 = none := by
   unfold runLoopG
   rw [if_pos]
   intro h
